@@ -533,7 +533,7 @@ func (x *c17Ref) audit(deps []c17Dep) *c17Audit {
 		it := queue[0]
 		queue = queue[1:]
 		im := it.imp
-		if len(im.Path) == 1 && !strings.Contains(c17Elems[im.Path[0]], ".") {
+		if !strings.Contains(c17Elems[im.Path[0]], ".") {
 			continue // standard library
 		}
 		var provs []*c17Mod
@@ -709,6 +709,10 @@ func c17Case(c *Cfg, r *Rng, u *c17Universe, full bool) {
 		map[string]any{"universe": code, "tidied": res.answer()})
 	c.OpTag("O", tag, "spec "+code+" "+c17DepsCode(res.deps), "ok")
 }
+
+// c17Witnesses replays the witnesses of the Lean counterexample theorems on the real
+// implementation (filled in below).
+func c17Witnesses(c *Cfg) {}
 
 func runC17(c *Cfg) {
 	r := NewRng(c.Seed)
